@@ -117,3 +117,25 @@ pub fn ghost_clear() {
 pub fn ghost_writes() -> usize {
     anydb_verif_platform::ghost::count(anydb_verif_platform::ghost::K::Write)
 }
+
+/// Contract mode with two regions in one tiny file: A at offset 0 (reserve `cap_a`, length `len_a`)
+/// and B at offset `cap_a` (reserve `cap_b`, length `len_b`).  Used for compressed vectors (data
+/// region + page-index region).  Reserves are not page multiples: only the fits-in-reserve path of
+/// write_with is in scope (allocator cut).
+pub fn api_contract_db2(buf: *mut u8, cap_a: usize, len_a: usize, cap_b: usize, len_b: usize) -> (Database, Region, Region) {
+    let f = &mut pfs::state().files[pfs::DATA];
+    f.buf = buf;
+    f.cap = cap_a + cap_b;
+    f.len = cap_a + cap_b;
+    let db = mk_db(cap_a + cap_b, 2);
+    let a = crate::region::verif_region::mk_in_db(
+        &db, 0, crate::region_metadata::verif_meta::mk_meta("a", 0, len_a, cap_a, 0), (usize::MAX, 0));
+    let b = crate::region::verif_region::mk_in_db(
+        &db, 1, crate::region_metadata::verif_meta::mk_meta("b", cap_a, len_b, cap_b, 0), (usize::MAX, 0));
+    layout_of(&db).insert_region(0, &a);
+    layout_of(&db).insert_region(cap_a, &b);
+    crate::regions::verif_regions::add(regions_of(&db), "a", &a, false);
+    crate::regions::verif_regions::add(regions_of(&db), "b", &b, false);
+    anydb_verif_platform::sync::set_cut(db.0.layout.verif_id());
+    (db, a, b)
+}
